@@ -37,7 +37,7 @@ func oBool(b bool) *big.Int {
 var opNames = map[byte]string{0x00: "STOP", 0x01: "ADD", 0x02: "MUL", 0x03: "SUB", 0x04: "DIV", 0x05: "SDIV", 0x06: "MOD", 0x07: "SMOD",
 	0x08: "ADDMOD", 0x09: "MULMOD", 0x0a: "EXP", 0x0b: "SIGNEXTEND", 0x10: "LT", 0x11: "GT", 0x12: "SLT", 0x13: "SGT",
 	0x14: "EQ", 0x15: "ISZERO", 0x16: "AND", 0x17: "OR", 0x18: "XOR", 0x19: "NOT", 0x1a: "BYTE", 0x1b: "SHL", 0x1c: "SHR", 0x1d: "SAR",
-	0x50: "POP", 0x51: "MLOAD", 0x52: "MSTORE", 0x53: "MSTORE8", 0x59: "MSIZE"}
+	0x50: "POP", 0x51: "MLOAD", 0x52: "MSTORE", 0x53: "MSTORE8", 0x54: "SLOAD", 0x55: "SSTORE", 0x59: "MSIZE"}
 
 func opName(op byte) string {
 	if n, ok := opNames[op]; ok {
@@ -175,6 +175,8 @@ type specResult struct {
 	Mem       []byte
 	Tops      []*big.Int // top of stack before each executed step (nil = empty)
 	Ops       []byte     // opcode executed at each step
+	StorKeys  []*big.Int // storage keys in the order of their first write
+	Stor      map[string]*big.Int
 }
 
 func cMem(words uint64) *big.Int {
@@ -187,7 +189,13 @@ func cMem(words uint64) *big.Int {
 // specRun is the specification machine: stack of 256-bit words, byte memory,
 // gas.  Any exceptional condition consumes all gas.
 func specRun(code []byte, gas uint64) specResult {
-	res := specResult{Supported: true}
+	res := specResult{Supported: true, Stor: map[string]*big.Int{}}
+	sget := func(k *big.Int) *big.Int {
+		if v, ok := res.Stor[k.String()]; ok {
+			return v
+		}
+		return big.NewInt(0)
+	}
 	var st []*big.Int // bottom first
 	var mem []byte
 	pc := 0
@@ -317,6 +325,33 @@ func specRun(code []byte, gas uint64) specResult {
 				mem[off] = byte(new(big.Int).And(arg(1), big.NewInt(255)).Uint64())
 				st = st[:len(st)-2]
 			}
+			pc++
+		case op == 0x54: // SLOAD (Istanbul: 800)
+			if !charge(1, 1, big.NewInt(800)) {
+				return exc()
+			}
+			record()
+			st[len(st)-1] = sget(arg(0))
+			pc++
+		case op == 0x55: // SSTORE, EIP-2200 with an empty committed storage, refunds not observable here
+			if len(st) < 2 || gas <= 2300 {
+				return exc()
+			}
+			cur, val := sget(arg(0)), arg(1)
+			cost := int64(800) // dirty slot, or no-op
+			if cur.Cmp(val) != 0 && cur.Sign() == 0 {
+				cost = 20000 // fresh slot
+			}
+			if !charge(2, 0, big.NewInt(cost)) {
+				return exc()
+			}
+			record()
+			k := arg(0)
+			if _, ok := res.Stor[k.String()]; !ok {
+				res.StorKeys = append(res.StorKeys, k)
+			}
+			res.Stor[k.String()] = val
+			st = st[:len(st)-2]
 			pc++
 		case op == 0x59:
 			if !charge(0, 1, big.NewInt(2)) {
